@@ -153,9 +153,23 @@ def request(data, req):
         try:
             pl.plot(data)
         except SystemExit:
-            pass
+            mpl.close("all")
+            return [np.zeros(1)]
+        # what was drawn (curves, bars, point clouds) is the diagram's answer: like any other request it must not depend on what
+        # was asked of this Data object before
+        drawn = []
+        for fig in [mpl.figure(n) for n in mpl.get_fignums()]:
+            for ax in fig.axes:
+                for ln in ax.lines:
+                    drawn.append(np.asarray(ln.get_xydata(), float).flatten())
+                for pa in ax.patches:
+                    if hasattr(pa, "get_height"):
+                        drawn.append(np.array([pa.get_x(), pa.get_width(), pa.get_height()], float))
+                for co in ax.collections:
+                    if hasattr(co, "get_offsets"):
+                        drawn.append(np.asarray(np.ma.filled(co.get_offsets(), np.nan), float).flatten())
         mpl.close("all")
-        return [np.zeros(1)]
+        return drawn if drawn else [np.zeros(1)]
     vf = [vutil.vfield(tuple(f) if isinstance(f, (tuple, list)) else (f,)) for f in fields]
     arg = vf if len(vf) > 1 else vf[0]
     if axis == "all":
